@@ -284,6 +284,25 @@ def check(case, rec):
                                           ("cells", "obs_data", "samp_data")},
                              dense_q))
 
+    # exports of fresh builds, written in whatever layout the route's
+    # history left behind (== would re-lay-out the table first)
+    fx = [_exports(_build_route(spec, r)) for r in case["routes"]]
+    for k in range(1, len(fx)):
+        for fmt in fx[0]:
+            if fx[0][fmt] != fx[k][fmt]:
+                raise Violation("export-differs:" + fmt, "fresh routes 0,%d "
+                                "(layouts %r): %r vs %r" %
+                                (k, [lays[0], lays[k]], fx[0][fmt],
+                                 fx[k][fmt]))
+    h5 = fx[0]["hdf5"]
+    if h5.get("csr_dense") != dense_q or h5.get("csc_dense") != dense_q or \
+            h5["observation"]["ids"] != spec["obs"] or \
+            h5["sample"]["ids"] != spec["samp"]:
+        raise Violation("export-differs-from-content", "HDF5 export of "
+                        "route 0 (layout %r) decodes to %r / %r, content %r" %
+                        (lays[0], h5.get("csr_dense"), h5.get("csc_dense"),
+                         dense_q))
+
     # pairwise equality, before and after interleaved accessors
     pairs = [(i, j) for i in range(len(tabs)) for j in range(len(tabs))
              if i < j]
